@@ -1,7 +1,7 @@
 (* C02 property theorems. This file contains only statements closed by
    [exact lemma] and Print Assumptions. *)
 From V Require Import Common.Base C02.Graph C02.Order C02.SpecESM C02.Wrap C02.Resolve C02.ResolveSpec
-  C02.DataUrl C02.SpecDataUrl C02.OrderProofs C02.OrderEsmProofs C02.ResolveProofs C02.WrapProofs C02.DataUrlProofs C02.ClassifyProofs C02.Emit C02.EmitProofs C02.ResolveChainProofs C02.ScanEsmProofs C02.ResolveDen C02.SpecDenProofs C02.StarHitsProofs C02.StarDenProofs C02.LinkDenProofs C02.ResolveStarsProofs.
+  C02.DataUrl C02.SpecDataUrl C02.OrderProofs C02.OrderEsmProofs C02.ResolveProofs C02.WrapProofs C02.DataUrlProofs C02.ClassifyProofs C02.Emit C02.EmitProofs C02.ResolveChainProofs C02.ScanEsmProofs C02.ResolveDen C02.SpecDenProofs C02.StarHitsProofs C02.StarDenProofs C02.LinkDenProofs C02.ResolveStarsProofs C02.EvalOrder C02.EvalOrderProofs.
 From Coq Require Import Permutation.
 
 (* every file of the chunk is emitted at most once ("every module body runs at most once") *)
@@ -271,3 +271,14 @@ Theorem resolve_is_spec_partial : forall g rk order s ni v1 v2,
   link_verdict g order s ni = Some v1 -> spec_verdict g s ni = Some v2 -> v1 = v2.
 Proof. intros g rk order s ni v1 v2 Hs. exact (stars_link_agree g rk Hs order s ni v1 v2). Qed.
 Print Assumptions resolve_is_spec_partial.
+
+(* mixed ESM / CommonJS graphs with lazy wrappers: for every graph whose wrap assignment is
+   consistent (every required or dynamically imported file is wrapped, and every file imported by
+   a wrapped file is wrapped - wrap_closed) the sequence of module-body start/end events of the
+   bundle (non-wrapped files in place, wrapped files at the first call of their __esm / __commonJS
+   wrapper, import() served in request order) equals native loading (InnerModuleEvaluation for ES
+   modules, require() as call-time evaluation with a module cache, import() in request order) *)
+Theorem mixed_order_is_native : forall g entry,
+  wrap_consistent g = true -> bundle_trace g entry = native_trace g entry.
+Proof. intros g entry H. exact (bundle_is_native g H entry). Qed.
+Print Assumptions mixed_order_is_native.
